@@ -10,10 +10,15 @@ open at any time (transactions atomic and isolated, the premise of C05-C07).
 The same events number the SQL statements of a request, which pv/faults.py
 uses to inject faults and crashes.
 """
+import re
 import threading
 import time
 
 from sqlalchemy import event
+
+
+_WRITE_TABLE = re.compile(r'^\s*(?:INSERT\s+(?:OR\s+\w+\s+)?INTO|UPDATE|DELETE\s+FROM)\s+"?(\w+)', re.I)
+_READ_TABLE = re.compile(r'(?:FROM|JOIN)\s+"?(\w+)', re.I)
 
 
 class ScheduleError(Exception):
@@ -32,6 +37,8 @@ class _Req(object):
         self.result = None
         self.error = None
         self.cur_writes = 0
+        self.cur_r = set()        # tables read / written by the open transaction
+        self.cur_w = set()
         self.stmts = 0
 
 
@@ -79,6 +86,8 @@ class Controller(object):
             r.open = 1
             r.ntx += 1
             r.cur_writes = 0
+            r.cur_r = set()
+            r.cur_w = set()
             r.parked = True
             self.cv.notify_all()
             while r.parked:
@@ -100,7 +109,11 @@ class Controller(object):
             kind = 'WX'           # wrote, then rolled back
         else:
             kind = 'W'
-        self.log.append((r.name, r.ntx, kind))
+        if kind == 'W':
+            fp = (frozenset(r.cur_r), frozenset(r.cur_w))
+        else:                     # nothing written that anybody can see
+            fp = (frozenset(r.cur_r | r.cur_w), frozenset())
+        self.log.append((r.name, r.ntx, kind, fp))
         if self.commit_hook is not None:
             self.commit_hook(r, what, kind)
 
@@ -118,6 +131,10 @@ class Controller(object):
         s = statement.lstrip()[:6].upper()
         if s in ('INSERT', 'UPDATE', 'DELETE'):
             r.cur_writes += 1
+            m = _WRITE_TABLE.search(statement)
+            if m:
+                r.cur_w.add(m.group(1).lower())
+        r.cur_r.update(t.lower() for t in _READ_TABLE.findall(statement))
         if self.stmt_hook is not None:
             self.stmt_hook(r, conn, cursor, statement, parameters)
 
@@ -167,7 +184,7 @@ class Controller(object):
     def step(self, name):
         """Let request `name` run its next top-level transaction and whatever
         thread-local code follows, until it parks again or finishes.
-        Returns (txno, kind) of the transaction executed, or None if the
+        Returns (txno, kind, (tables read, tables written)) of the transaction executed, or None if the
         request finished without a further transaction."""
         r = self.reqs[name]
         if r.done:
@@ -182,7 +199,7 @@ class Controller(object):
         mine = [e for e in self.log[before:] if e[0] == name]
         if not mine:
             return None
-        return mine[-1][1], mine[-1][2]
+        return mine[-1][1], mine[-1][2], mine[-1][3]
 
     def finish(self):
         for r in self.reqs.values():
